@@ -4,6 +4,7 @@ package main
 
 import (
 	"fmt"
+	"runtime"
 	"sort"
 	"strings"
 
@@ -255,9 +256,19 @@ func c12One(r *fw.Rec, ws *writerSpec) bool {
 	var err error
 	exceeded := false
 	msg, stack, panicked := fw.Guard(func() {
-		exceeded, _, _ = dmGuard(8*len(content)+32, func() { bm, err = ws.New().Encode(content, format, w, h, hints) })
+		exceeded, _, _ = dmGuard(8*len(content)+32, func() {
+			if hints == nil && len(content)%2 == 0 {
+				bm, err = ws.New().EncodeWithoutHint(content, format, w, h)
+				hdesc = "(EncodeWithoutHint)"
+			} else {
+				bm, err = ws.New().Encode(content, format, w, h, hints)
+			}
+		})
 	})
 	r.Evals(1)
+	if hdesc == "(EncodeWithoutHint)" {
+		r.Tally("calls_through_EncodeWithoutHint")
+	}
 	call := fmt.Sprintf("%s.Encode(%d bytes, %v, %dx%d, {%s})", ws.Name, len(content), format, w, h, hdesc)
 	if panicked {
 		r.Violation("panic", "encode:panic:"+fw.PanicSite(stack), fmt.Sprintf("%s panicked: %s", call, msg), info)
@@ -303,6 +314,40 @@ func c12One(r *fw.Rec, ws *writerSpec) bool {
 	return true
 }
 
+// c12Huge: requested sizes beyond 2^31 pixels (legal ints; the matrix takes 256 MiB).
+func c12Huge(r *fw.Rec, ws *writerSpec) {
+	content := ws.Gen(r.Rng, true)
+	for _, d := range [][2]int{{2097152, 1025}, {1025, 2097152}, {46341, 46342}} {
+		w, h := d[0], d[1]
+		var bm *gozxing.BitMatrix
+		var err error
+		msg, stack, panicked := fw.Guard(func() { bm, err = ws.New().Encode(content, ws.Format, w, h, nil) })
+		r.Evals(1)
+		call := fmt.Sprintf("%s.Encode(%q, %dx%d)", ws.Name, content, w, h)
+		info := map[string]interface{}{"writer": ws.Name, "content": content, "width": w, "height": h}
+		if panicked {
+			r.Violation("panic", "encode:panic:"+fw.PanicSite(stack), fmt.Sprintf("%s panicked: %s", call, msg), info)
+			return
+		}
+		if (bm == nil) == (err == nil) {
+			r.Violation("totality", "encode:result-xor-error:"+ws.Name, fmt.Sprintf("%s returned matrix=%v err=%v", call, bm != nil, err), info)
+			return
+		}
+		if err == nil {
+			if ws.Name != "DATA_MATRIX" && (bm.GetWidth() < w || bm.GetHeight() < h) {
+				r.Violation("model-mismatch", "encode:matrix-smaller-than-requested:"+ws.Name, fmt.Sprintf("%s returned %dx%d, smaller than requested", call, bm.GetWidth(), bm.GetHeight()), info)
+				return
+			}
+			r.Tally("matrices_beyond_2^31_pixels")
+		} else {
+			r.Tally("errors_beyond_2^31_pixels")
+		}
+		bm = nil
+		runtime.GC()
+	}
+	r.Nontrivial("huge|" + ws.Name)
+}
+
 func clipStr(s string, n int) string {
 	if len(s) > n {
 		return s[:n]
@@ -311,7 +356,7 @@ func clipStr(s string, n int) string {
 }
 
 func c12(c *fw.Ctx) {
-	c.Rule("all 11 writers x seeded random (content class, format from all 17 values, width/height from {-2^31, -1, 0, 1, small, 0..400, 20000}, hint maps over the ten accepted hint keys with in- and out-of-range values of the accepted types); per call: recover() for panics, dispatch-step hook for the Data Matrix mode loop, CPU/heap budget, exactly one of matrix/error, matrix >= the symbol's module count (same writer and hints at 0x0, margin 0) and, for QR/1-D, >= max(requested, 1); distinct = distinct (writer, content, format, size, hints) that returned a matrix")
+	c.Rule("all 11 writers x seeded random (content class, format from all 17 values, width/height from {-2^31, -1, 0, 1, small, 0..400, 20000} (plus, per writer, three requests beyond 2^31 pixels), hint-less calls half through EncodeWithoutHint, hint maps over the ten accepted hint keys with in- and out-of-range values of the accepted types); per call: recover() for panics, dispatch-step hook for the Data Matrix mode loop, CPU/heap budget, exactly one of matrix/error, matrix >= the symbol's module count (same writer and hints at 0x0, margin 0) and, for QR/1-D, >= max(requested, 1); distinct = distinct (writer, content, format, size, hints) that returned a matrix")
 	c.Assume("hint values are of the types documented in encode_hint_type.go (FORCE_CODE_SET: string; MIN/MAX_SIZE: *Dimension incl. nil; ERROR_CORRECTION: ErrorCorrectionLevel or string; MARGIN/QR_VERSION/QR_MASK_PATTERN: int or string; GS1_FORMAT: bool or string)")
 	n := c.Pick(450, 25000)
 	for wi := range allWriters {
@@ -331,7 +376,9 @@ func c12(c *fw.Ctx) {
 		}
 		c.Floor("matrices_"+ws.Name, 60)
 		c.Floor("errors_"+ws.Name, 60)
+		c.Run("huge/"+ws.Name, func(r *fw.Rec) { c12Huge(r, ws) })
 	}
+	c.Floor("calls_through_EncodeWithoutHint", 500)
 	// every writer x every format value, valid content
 	c.Run("formats", func(r *fw.Rec) {
 		for wi := range allWriters {
